@@ -16,6 +16,9 @@ type Version struct {
 	Disc   bool // discard-earlier-versions flag
 	Merge  bool
 	Commit int // index into Model.Commits
+	// Older holds writes of the same key at the same timestamp that this one
+	// replaced (managed mode: several calls may target one key+version).
+	Older []Version
 }
 
 // CommitRec is one commit attempt whose timestamp was allocated.
@@ -85,6 +88,9 @@ func (m *Model) AddWrite(c *CommitRec, w WriteRec) {
 	vs := m.Keys[w.Key]
 	i := sort.Search(len(vs), func(i int) bool { return vs[i].Ts >= ts })
 	if i < len(vs) && vs[i].Ts == ts {
+		old := vs[i]
+		v.Older = append(append([]Version{}, old.Older...), old)
+		v.Older[len(v.Older)-1].Older = nil
 		vs[i] = v
 	} else {
 		vs = append(vs, Version{})
